@@ -59,6 +59,7 @@ fn case_pattern(rng: &mut Rng, s: &str) -> Vec<u8> {
 }
 
 pub fn run(cfg: &Cfg, rep: &mut Report) {
+    other_base_units(cfg, rep);
     // ---- defined suffixes, all case patterns, many literals; bare numbers
     let n = cfg.n(100, 8_000_000, 800_000_000);
     run_cases(cfg, "defined", n, rep, |rng, ctx| {
@@ -299,6 +300,57 @@ pub fn run(cfg: &Cfg, rep: &mut Report) {
             if class != want_class || val.map(|v| v.to_bits()) != plain.as_ref().ok().map(|v| v.to_bits()) {
                 ctx.violation(&format!("C18:amplitude:ElectricCurrent:{}", if class != want_class { "wrong-classification" } else { "number-altered" }), jobj(&[("literal", jbytes(&lit)), ("suffix", jbytes(&suffix)), ("class", class.to_string())]));
             }
+        }
+    });
+}
+
+// ---- the same conversions into quantities stored in another system of base units (the conversions are generic over the
+// unit system `U`): a centimetre-gram-second flavoured system as in the uom documentation. The value is read back in the
+// named unit (`get::<volt>()` ...), so the comparison is independent of how the quantity stores it.
+mod cgs {
+    ISQ!(uom::si, f32, (centimeter, gram, second, ampere, kelvin, mole, candela));
+}
+
+pub fn other_base_units(cfg: &Cfg, rep: &mut Report) {
+    use scpi::units::uom::si::{electric_potential::volt, electrical_resistance::ohm, energy::joule, frequency::hertz, power::watt, time::second};
+    let n = cfg.n(20, 300_000, 20_000_000);
+    run_cases(cfg, "other-base-units", n, rep, |rng, ctx| {
+        let lit = gen_nrf(rng);
+        let x: f64 = std::str::from_utf8(&lit).unwrap().parse().unwrap();
+        if !(x == 0.0 || (x.abs() > 1e-12 && x.abs() < 1e12)) {
+            return;
+        }
+        macro_rules! q {
+            ($name:literal, $ty:ty, $unit:ty, $table:expr) => {{
+                let su = rng.pick($table);
+                let suffix = case_pattern(rng, su.s);
+                let bare = rng.chance(1, 6);
+                let tok = if bare { Token::DecimalNumericProgramData(&lit) } else { Token::DecimalNumericSuffixProgramData(&lit, &suffix) };
+                let r: Result<$ty, Error> = <$ty>::try_from(tok);
+                bump(ctx, 1);
+                ctx.count(&format!("other-base-units.{}", $name));
+                ctx.nontrivial(mix(hash_bytes(&lit), hash_bytes(&suffix)));
+                let factor = if bare { 1.0 } else { su.factor };
+                let want = (x + if bare { 0.0 } else { su.pre_offset }) * factor;
+                match r {
+                    Err(e) => ctx.violation(&format!("C18:{}:defined-suffix-rejected:other-base-units", $name), jobj(&[("literal", jbytes(&lit)), ("suffix", jbytes(&suffix)), ("error", e.get_code().to_string())])),
+                    Ok(v) => {
+                        let got = v.get::<$unit>() as f64;
+                        let ok = (got - want).abs() <= 2e-5 * want.abs().max(f64::MIN_POSITIVE) || (!bare && su.alt_factor.map_or(false, |f| (got - x * f).abs() <= 2e-5 * (x * f).abs()));
+                        if !ok && want.abs() > 1e-25 && want.abs() < 1e25 {
+                            ctx.violation(&format!("C18:{}:wrong-scale:other-base-units", $name), jobj(&[("literal", jbytes(&lit)), ("suffix", jbytes(if bare { b"" } else { &suffix })), ("value_in_named_unit", format!("\"{:e}\"", got)), ("expected", format!("\"{:e}\"", want))]));
+                        }
+                    }
+                }
+            }};
+        }
+        match ctx.index % 6 {
+            0 => q!("ElectricPotential", cgs::ElectricPotential, volt, POTENTIAL),
+            1 => q!("ElectricalResistance", cgs::ElectricalResistance, ohm, RESISTANCE),
+            2 => q!("Energy", cgs::Energy, joule, ENERGY),
+            3 => q!("Power", cgs::Power, watt, POWER),
+            4 => q!("Frequency", cgs::Frequency, hertz, FREQUENCY),
+            _ => q!("Time", cgs::Time, second, TIME),
         }
     });
 }
